@@ -183,6 +183,15 @@ func init() {
 		in.abort("unsupported: net.ParseIP on a symbolic string that is not an address text")
 		return nil
 	})
+	reg("(*net.Interface).Addrs", func(in *Interp, fr *frame, a []Value) Value {
+		// environment stub: the interface has one IPv4 and one IPv6 loopback-style address
+		ipnetT := types.NewPointer(in.pkgType("net", "IPNet"))
+		mk := func(ip net.IP, mask net.IPMask) Value {
+			st := Value(Struct{bytesToSlice(ip), bytesToSlice(mask)})
+			return Iface{t: ipnetT, v: &st}
+		}
+		return Tuple{Slice{mk(net.IPv4(127, 0, 0, 1).To4(), net.CIDRMask(8, 32))}, Iface{}}
+	})
 	reg("net.ParseCIDR", func(in *Interp, fr *frame, a []Value) Value {
 		str, ok := a[0].(string)
 		if !ok {
